@@ -398,6 +398,12 @@ def generic_case(expr, leaf_idx, piece, k=0, orient=None, dep=None, premises_onl
 
 
 class _NStubDomain(SH.StubDomain):
+    def __init__(self, space, env, tag, n):
+        super().__init__(space, env, tag, n)
+        if not env.symbolic:  # float replay: the stub's answers are exactly what the code sees (no comparison slack)
+            self.f_in = [float(v) > 0 for v in SH.elems(env, self.t_in)]
+            self.f_on = [float(v) > 0 for v in SH.elems(env, self.t_on)]
+
     @property
     def boundary(self):
         return _NStubBoundary(self)
@@ -487,11 +493,14 @@ def cases(tier):
                 for z in ZONES:
                     cs.append(generic_case(e, 0, pc, 0, orient=orient, zone=z))
                 cs.append(generic_case(e, 0, pc, 0, orient=orient, premises_only=True))
-        # link: the real boundary samplers return points on those edges (any orientation)
-        cs.append(sampled_case(e, "random", 1, 0, link_only=True))
-        cs.append(sampled_case(e, "random", 2, 0, link_only=True))
-        for n in ((1, 2, 3) if quick else (1, 2, 3, 4, 5)):
-            cs.append(sampled_case(e, "grid", n, 0, link_only=True))
+        # link: the real boundary samplers return points on those edges (any orientation); clamps as path forks
+        cs.append(sampled_case(e, "random", 1, 0, link_only=True, split=("minmax",)))
+        for n in (1, 2, 3):
+            cs.append(sampled_case(e, "grid", n, 0, link_only=True, split=("minmax",), budget_s=100))
+        if not quick:
+            cs.append(sampled_case(e, "random", 2, 0, link_only=True, split=("minmax",), max_paths=96))
+            for n in (4, 5):
+                cs.append(sampled_case(e, "grid", n, 0, link_only=True, split=("minmax",), max_paths=96))
     # composition layer on arbitrary operands
     for op in "+-&":
         cs.append(abstract_case(op))
@@ -502,4 +511,42 @@ def cases(tier):
         for li in (0, 1):
             for pc in ("lb", "ub"):
                 cs.append(generic_case(e, li, pc, 0))
+    if quick:
+        return cs
+    # ---- thorough ------------------------------------------------------------------------------
+    # Sphere: end to end (random draws; grid incl. n=1, where sample_grid divides by n-1)
+    for n in (1, 2):
+        cs.append(sampled_case(S, "random", n, 0))
+    for n in (1, 2, 3):
+        cs.append(sampled_case(S, "grid", n, 0))
+    cs.append(generic_case(S, 0, "arc", 0))
+    # parameter-dependent shapes, k=2 parameter rows
+    for e in (I, C, S):
+        cs.append(sampled_case(e, "random", 1, 2, dep="t"))
+        if e is not S:  # SphereBoundary.sample_grid does not accept parameter rows at all (radius.item()): a sampler matter (C01/C02)
+            cs.append(sampled_case(e, "grid", 1, 2, dep="t"))
+    for e, orient in ((PG, "pos"), (TR, "ccw")):
+        for pc in pieces(e[0]):
+            for z in ZONES:
+                cs.append(generic_case(e, 0, pc, 2, orient=orient, zone=z, dep="t", budget_s=300))
+            cs.append(generic_case(e, 0, pc, 2, orient=orient, premises_only=True, dep="t"))
+    # one Boolean operation of Circle / Parallelogram operands: generic point of every piece of both operands
+    A_C, B_C, A_P, B_P = ("Circle", "A"), ("Circle", "B"), ("Parallelogram", "A"), ("Parallelogram", "B")
+    for op in "+-&":
+        for ea, eb in ((A_C, B_C), (A_C, B_P), (A_P, B_C)):
+            e = (op, ea, eb)
+            for li, leaf in enumerate((ea, eb)):
+                for pc in pieces(leaf[0]):
+                    zs = ZONES if leaf[0] in POLY else (None,)
+                    for z in zs:
+                        cs.append(generic_case(e, li, pc, 0, zone=z, budget_s=300))
+        # end to end for circle operands (real composite boundary sampler incl. its rejection loop)
+        cs.append(sampled_case((op, A_C, B_C), "random", 1, 0, max_forks_per_site=3, max_paths=24, budget_s=300))
+    # nesting depth 2
+    for e in (("+", ("-", A_C, B_P), ("Circle", "C")), ("&", ("+", A_C, B_C), ("Parallelogram", "C"))):
+        for li, leaf in enumerate(expr_leaves(e)):
+            for pc in pieces(leaf[0]):
+                zs = ("z0", "mid", "v1") if leaf[0] in POLY else (None,)
+                for z in zs:
+                    cs.append(generic_case(e, li, pc, 0, zone=z, budget_s=300))
     return cs
